@@ -5,6 +5,8 @@ EXTENDS QueryString, Json
 
 (* '&' '=' ',' '+' '%' '4' '1' 'C' '3' 'a' 'G' NUL U+00E9 *)
 QsAlphabet == {38, 61, 44, 43, 37, 52, 49, 67, 51, 97, 71, 0, 233}
+(* length 5 over the 8 structural symbols '&' '=' ',' '+' '%' '4' '1' 'a' (thorough tier) *)
+QsAlphabet5 == {38, 61, 44, 43, 37, 52, 49, 97}
 NoStrings  == {}
 NoMappings == {}
 
